@@ -132,3 +132,74 @@ def contains(pattern, tree):
     for _ in find(pattern, tree):
         return True
     return False
+
+
+# ---------------------------------------------------------------------------
+# canonical form for slot rules: behaviour-preserving noise is removed before matching
+#   * logging / print statements are dropped
+#   * a temporary that is assigned once and used exactly once, in the immediately following statement, is inlined
+# so that  `s = f(x); return g(s)`  and  `return g(f(x))`  match the same pattern.
+def _is_noise(st):
+    if isinstance(st, ast.Expr) and isinstance(st.value, ast.Call):
+        f = st.value.func
+        if isinstance(f, ast.Attribute) and isinstance(f.value, ast.Name) and f.value.id in ('logger', 'logging'):
+            return True
+        if isinstance(f, ast.Name) and f.id == 'print':
+            return True
+    if isinstance(st, ast.Expr) and isinstance(st.value, ast.Constant) and isinstance(st.value.value, str):
+        return True
+    if isinstance(st, ast.Pass):
+        return True
+    return False
+
+
+class _Subst(ast.NodeTransformer):
+    def __init__(self, name, value):
+        self.name, self.value, self.count = name, value, 0
+
+    def visit_Name(self, node):
+        if node.id == self.name and isinstance(node.ctx, ast.Load):
+            self.count += 1
+            return self.value
+        return node
+
+
+def canon(stmts):
+    '''returns a NEW list of statements (re-parsed copies) in canonical form'''
+    text = '\n'.join(ast.unparse(s) for s in stmts) or 'pass'
+    body = ast.parse(text).body
+    body = [s for s in body if not _is_noise(s)]
+    changed = True
+    while changed:
+        changed = False
+        for i in range(len(body) - 1):
+            st = body[i]
+            if not (isinstance(st, ast.Assign) and len(st.targets) == 1 and isinstance(st.targets[0], ast.Name)):
+                continue
+            name = st.targets[0].id
+            loads_next = [n for n in ast.walk(body[i + 1]) if isinstance(n, ast.Name) and n.id == name and isinstance(n.ctx, ast.Load)]
+            stores_next = [n for n in ast.walk(body[i + 1]) if isinstance(n, ast.Name) and n.id == name and isinstance(n.ctx, ast.Store)]
+            later = [n for s in body[i + 2:] for n in ast.walk(s) if isinstance(n, ast.Name) and n.id == name]
+            inside_lambda = any(isinstance(p, (ast.Lambda, ast.FunctionDef)) and any(
+                isinstance(n, ast.Name) and n.id == name for n in ast.walk(p)) for p in ast.walk(body[i + 1]))
+            compound = isinstance(body[i + 1], (ast.For, ast.While, ast.If, ast.With, ast.Try, ast.FunctionDef))
+            if len(loads_next) == 1 and not stores_next and not later and not inside_lambda and not compound:
+                body[i + 1] = ast.fix_missing_locations(_Subst(name, st.value).visit(body[i + 1]))
+                del body[i]
+                changed = True
+                break
+    for s in body:
+        for sub in ast.walk(s):
+            for fld in ('body', 'orelse'):
+                v = getattr(sub, fld, None)
+                if isinstance(v, list) and v and isinstance(v[0], ast.stmt) and sub is not s or (isinstance(v, list) and v and isinstance(v[0], ast.stmt) and isinstance(sub, (ast.If, ast.For, ast.While))):
+                    pass
+    return body
+
+
+def match_canon(patterns, stmts, env=None):
+    '''match a list of statement patterns against a statement list, both in canonical form'''
+    pats = ast.parse('\n'.join(patterns)).body
+    pats = canon(pats)
+    code = canon(stmts)
+    return match(pats, code, env)
